@@ -50,6 +50,13 @@ def run(rep, tier, seed):
             s += ["open_dir 0 %s %d" % (sessions.hexs("/".join(pth)), h), "list %d" % h, "drop_dir %d" % h]
         s += ["drop_all", "unmount", "dump %d %d" % (vol_bytes, size - vol_bytes)]
         scripts.append(s); metas.append((conf, vol_bytes))
+    for i in range(16 if tier == "quick" else 200):
+        conf = confs[[0, 0, 3, 0][i % 4]] if tier == "quick" else confs[i % len(confs)]
+        s = sessions.dir_heavy_session(rng, (conf[0], conf[1], conf[2]), nfiles=rng.range(8, 16))
+        s[0] = "dev %d 209" % conf[1]
+        vol_bytes = int(conf[2].split()[2]) * int(conf[2].split()[1])
+        s += ["dump %d %d" % (vol_bytes, conf[1] - vol_bytes)]
+        scripts.append(s); metas.append((conf, vol_bytes))
     judged = sessions.run_judged(scripts, flags=("tree", "regions"), shards=16)
     nwrites = 0
     kinds = {}
@@ -59,7 +66,7 @@ def run(rep, tier, seed):
         ok = sc.report(rep, jd, f, (), "C11")
         upto = f.stop_at if f.stop_at is not None else len(jd.ops)
         for oi in sorted(jd.regions):
-            if oi >= upto or not ok:
+            if oi > upto or not ok:
                 break
             o = jd.ops[oi]; name = sc.opname(o)
             for (r1, r2, structural, off, ln, depth) in jd.regions[oi]:
